@@ -560,7 +560,8 @@ class XPathToken(Token[ta.XPathTokenType]):
                     if not isinstance(op2, (str, UntypedAtomic, AnyURI)):
                         raise TypeError(msg.format(type(op1), type(op2)))
                 case bool():
-                    if isinstance(op2, (str, Integer, AbstractQName, AnyURI)):
+                    if isinstance(op2, (str, Integer, float, decimal.Decimal,
+                                        AbstractQName, AnyURI)):
                         raise TypeError(msg.format(type(op1), type(op2)))
                 case Integer():
                     if isinstance(op2, (str, AbstractQName, AnyURI, bool)):
